@@ -12,6 +12,7 @@ R-GUARDDEP [N]: a float->integer narrowing cast that sits in a branch selected b
   guard does not depend on: the guard has to be computed from everything the cast value is computed
   from, otherwise a value whose magnitude exceeds the tier is cast (saturating) on the wrong path.
 """
+import re
 from facts import walk, callee, root_local, strip, local_of, Defs, Tree
 
 ARITH_MODULES = ("util::basic", "util::uintsmallmod", "util::polysmallmod", "util::number_theory", "util::ntt",
@@ -307,4 +308,80 @@ def run_carry(facts, rep, fn_filter):
                 rep.ok("R-CARRY", key, "outer buffers written in the loop {%s} are write-only or re-initialised per iteration"
                        % ", ".join(sorted(written.values())), facts.loc(p, L),
                        sample={"function": p, "line": L.get("l"), "buffers": sorted(written.values())})
+    return n
+
+
+def _pos(n):
+    return (n.get("l", 0), n.get("c", 0))
+
+
+def _abs_only(defs, e, at, loops, depth=0):
+    """True when every value e can hold at the test `at` is the result of .abs() / .unsigned_abs(): directly, or through
+    locals all of whose REACHING definitions (those before the test, or anywhere in a loop that encloses it) are"""
+    e = strip(e)
+    if e.get("k") == "Cast":
+        return _abs_only(defs, e["e"], at, loops, depth)
+    if e.get("k") == "MCall" and e.get("name") in ("abs", "unsigned_abs") and not e["args"]:
+        return True
+    lo = local_of(e)
+    if lo and depth < 4:
+        ds = [d for d in defs.defs.get(lo[0], [])
+              if _pos(d) < _pos(at) or any(any(y is d for y in walk(L)) for L in loops)]
+        return bool(ds) and all(_abs_only(defs, d, at, loops, depth + 1) for d in ds)
+    return False
+
+
+def sign_tests(facts, body):
+    """(node, always) for comparisons with 0 whose other side can only hold an absolute value"""
+    defs = Defs(body)
+    tree = Tree(body)
+    out = []
+    for x in walk(body):
+        if x.get("k") != "Bin" or x.get("op") not in ("<", ">=", ">", "<="):
+            continue
+        a, b = strip(x["a"]), strip(x["b"])
+        za = a.get("k") == "Lit" and re.sub(r"_?[iu](8|16|32|64|128|size)$", "", str(a.get("v"))) == "0"
+        zb = b.get("k") == "Lit" and re.sub(r"_?[iu](8|16|32|64|128|size)$", "", str(b.get("v"))) == "0"
+        loops = [L for L in tree.ancestors(x) if L.get("k") in ("Loop", "While", "For")]
+        if zb and x["op"] in ("<", ">=") and _abs_only(defs, x["a"], x, loops):
+            out.append((x, x["op"] == ">="))
+        if za and x["op"] in (">", "<=") and _abs_only(defs, x["b"], x, loops):
+            out.append((x, x["op"] == "<="))
+    return out
+
+
+def run_abs_sign(facts, rep, files=None):
+    R = "R-CONTRA(sign)"
+    rep.rule(R, "no sign test (`x < 0`, `x >= 0`) is applied to a value that can only be an absolute value: such a test is "
+             "constant, so the negative case it was written for is silently treated as the positive one")
+    # self-test of the matcher on a synthetic body (the rule expects zero matches on a healthy tree)
+    syn = {"k": "Block", "stmts": [
+        {"k": "Let", "pat": {"k": "PBind", "lid": 1, "name": "v"}, "init":
+            {"k": "MCall", "name": "abs", "l": 1, "recv": {"k": "Path", "res": "local", "lid": 0, "name": "p"}, "args": []}},
+        {"k": "Let", "pat": {"k": "PBind", "lid": 2, "name": "s"}, "init":
+            {"k": "Bin", "op": "<", "l": 2, "a": {"k": "Path", "res": "local", "lid": 1, "name": "v"},
+             "b": {"k": "Lit", "v": "0"}}}]}
+    st = sign_tests(facts, syn)
+    if len(st) == 1 and st[0][1] is False:
+        rep.ok(R, "self-test", "the matcher recognises `let v = p.abs(); v < 0` as constant", "rules/r_contra.py", nontrivial=False)
+    else:
+        rep.violation(R, "self-test", "the sign-test matcher no longer recognises its positive example")
+    n = 0
+    for p in sorted(facts.hir):
+        it = facts.items[p]
+        if files is not None and it["file"] not in files:
+            continue
+        body = facts.hir[p]
+        has_abs = any(x.get("k") == "MCall" and x.get("name") in ("abs", "unsigned_abs") for x in walk(body))
+        if not has_abs:
+            continue
+        n += 1
+        rep.fn(p)
+        bad = sign_tests(facts, body)
+        if not bad:
+            rep.ok(R, p, "sign tests in %s read values that can be negative" % p, facts.loc(p), nontrivial=False)
+        for k, (x, always) in enumerate(bad):
+            rep.violation(R, "%s/#%d" % (p, k), "the sign test at line %s compares an absolute value with 0 and is always %s: "
+                          "negative inputs are handled as if they were positive" % (x.get("l"), "true" if always else "false"),
+                          facts.loc(p, x))
     return n
